@@ -77,6 +77,8 @@ def gen_history(rng, tier):
             st = {"k": "derive", "m": rng.choice(DERIVE), "r": r, "arg": rng.randint(0, 3)}
         elif c < 0.62:
             st = {"k": "edit", "m": rng.choice(EDIT), "r": r, "arg": rng.randint(0, 3)}
+            if rng.random() < 0.25:
+                st["via_group"] = True       # the edit is made on what `lod.group_by("a")` returns — the list itself, grouped
         elif c < 0.70:
             st = {"k": "fresh", "m": rng.choice(FRESH), "r": r}
         elif c < 0.80:
@@ -244,7 +246,7 @@ def impl(case):
                                 item["poked"] = item.get("poked", 0) + 1
                         rec["poked"] = True
                 else:
-                    new = call(lod, st, other)
+                    new = call(lod.group_by("a") if st.get("via_group") else lod, st, other)
         except Exception as e:
             rec["err"] = f"{type(e).__name__}: {e}"
             recs.append(rec)
